@@ -58,7 +58,7 @@ theorem noMain_tail (t : Tag) (q : List Tag) (h : noMain (t :: q) = true) : noMa
 token capacity one, sequential establishments). -/
 theorem safe_step (P : Params) (hP : P.Good) (s s' : State) (e : Event) (h : Safe s) (hs : step P s e = some s') :
     Safe s' := by
-  obtain ⟨hR, hC, hS⟩ := hP
+  obtain ⟨hR, hC, hS, hH⟩ := hP
   obtain ⟨a1, a2, a3, a4, a5, a6, a7, a8, a9, a10, a11, a12, a13, a14, a15, a16, a17, a18, a19, a20, a21⟩ := h
   cases e with
   | acceptBegin id =>
@@ -202,6 +202,9 @@ theorem safe_step (P : Params) (hP : P.Good) (s s' : State) (e : Event) (h : Saf
           cases hh : s.hs <;> first | rfl | (have := a4 (by rw [hh]; simp); simp [noMain, hq] at this)
         constructor <;> simp only [] <;> (try assumption) <;> grind [TokPhase, PastRecv, PreTok, GoodDelivery, noMain]
     · simp at hs
+  | xAcceptUnparked =>
+    simp only [step, hH, Bool.or_true, if_true] at hs
+    split at hs <;> simp at hs
   | lAccept id =>
     simp only [step] at hs
     split at hs
